@@ -275,6 +275,7 @@ impl Engine {
             e.1 += 1;
         }
         self.stats.sim_seconds += (self.w.st.now_ns - t0) / 1_000_000_000;
+        self.last_kind = kind;
         self.trace.str(kind);
         self.trace.u64(ok as u64);
         if self.keep_events {
@@ -1104,7 +1105,16 @@ impl Engine {
         let ch = self.m.cfg.channel.clone();
         let other = format!("channel-{}", self.sw.channel + 1);
         let s = self.s_addr();
-        let open_seq: Option<u64> = self.w.st.packets.iter().filter(|p| p.sender == s && !matches!(p.state, PState::AckedOk)).map(|p| p.seq).next();
+        // a sequence of ours that is still awaiting its acknowledgement if there is one, else any still recorded
+        let open_seq: Option<u64> = self
+            .w
+            .st
+            .packets
+            .iter()
+            .filter(|p| p.sender == s && matches!(p.state, PState::InFlight | PState::RecvOk | PState::RecvErr))
+            .map(|p| p.seq)
+            .last()
+            .or_else(|| self.w.st.packets.iter().filter(|p| p.sender == s && !matches!(p.state, PState::AckedOk) && !self.m.recovered.contains(&p.id)).map(|p| p.seq).next());
         let closed_seq: Option<u64> = self.w.st.packets.iter().filter(|p| p.sender == s && p.state == PState::AckedOk && !self.m.lost_cb.contains(&p.id)).map(|p| p.seq).last();
         let unknown = self.w.st.channels.get(&ch).map(|c| c.next_seq + 5).unwrap_or(99);
         let msg = match k {
